@@ -640,7 +640,13 @@ impl C13 {
                 rep.skipped = Some("reference-budget");
                 return;
             };
-            let before_deps = model.deps_completed.len() + model.cands_completed.len();
+            // does this step's problem mention a package whose candidates an earlier step fetched?
+            let reuses_metadata = p
+                .reqs
+                .iter()
+                .flat_map(|r| c.u.req_vsets(r))
+                .chain(p.constraints.iter().copied())
+                .any(|vs| model.cands_completed.contains(&c.u.packages[c.u.vsets[vs].pkg].name_id));
             let res = session.solve(p, cancel, false, false);
             rep.evaluations += 1;
             let what = format!("step {i} ({cancel:?}, after {:?})", prev_kind);
@@ -678,7 +684,7 @@ impl C13 {
             // did this step need metadata that an earlier step had fetched? (it made fewer
             // provider calls than a fresh solver would) - approximated by: earlier steps
             // completed requests and this step completed fewer new ones than it mentions.
-            if i > 0 && before_deps > 0 {
+            if i > 0 && reuses_metadata {
                 touched_again = true;
             }
             if i > 0 && matches!(prev_kind, Some("cancelled") | Some("unsat")) {
